@@ -204,6 +204,13 @@ def clause_d(ctx, P):
                     for s in exits_of_loop:
                         if any(fn.term(r)["k"] == "return" for r in fn.reachable(s, removed_blocks=[dhead])):
                             okd = False
+        if not okd and h is not None:
+            # the closure idiom: timers.into_iter().for_each(|t| self.add_timer(t))
+            from .f6 import closure_drains
+            for b in closure_drains(P, fn, lambda e: has_call(e, "Vec::new")):
+                exits_of_loop = {s for x in loops[h] for s in fn.succs(x) if s not in loops[h]}
+                if not any(any(fn.term(r)["k"] == "return" for r in fn.reachable(s, removed_blocks=[b])) for s in exits_of_loop):
+                    okd = True
         ctx.ob("C05d.F6.timer-list-drained", fn.name, okd, fn.loc(), "the collected times are all handed to add_timer after the record loop")
 
 
